@@ -89,6 +89,11 @@ func vGenCompressedStream(toClient bool, nMsgs int) (frames []vFrame, msgs []vGe
 		data := vBytes("payload", 1+vChoose("len", 2))
 		gm.payload = data
 		comp := vStored(data, []int{len(data)}, false)
+		if vParam("bfinal", 1) == 1 && vChoose("bfinal", 2) == 1 {
+			// the DEFLATE stream ends with a final block, followed by the RFC 7692 7.2.3.4 octet: the message goes on
+			// on the wire after its data is complete, and is complete only with the end of its final frame
+			comp = append(vStored(data, []int{len(data)}, true), 0x00)
+		}
 		var cuts []int
 		if vChoose("frags", 2) == 1 {
 			cuts = []int{vChoose("fragAt", len(comp)+1)}
